@@ -15,7 +15,7 @@ META = dict(
 
 def tasks(tier):
     from vf.core import Task
-    return [Task('props.wire:run', name='C14/wire.c14_pickle_wiring', fname='c14_pickle_wiring', timeout=300), Task('props.wire:run', name='C14/wire.to_file', fname='c14_to_file_wiring', timeout=300), Task('props.wire:run', name='C14/wire.from_file', fname='c14_from_file_wiring', timeout=300)] + bounded_tasks('C14', tier)
+    return [Task('props.wire:run', name='C14/wire.c14_pickle_wiring', fname='c14_pickle_wiring', timeout=300), Task('props.wire:run', name='C14/wire.to_file', fname='c14_to_file_wiring', timeout=300), Task('props.wire:run', name='C14/wire.from_file', fname='c14_from_file_wiring', timeout=300), Task('props.wire:run', name='C14/wire.array_file', fname='c14_array_file_wiring', timeout=300)] + bounded_tasks('C14', tier)
 
 
 MANIFEST_ENTRY = dict(
